@@ -446,6 +446,9 @@ func (f *Frame) execCopy(instr ssa.Instruction, args []*V, st *State, rt types.T
 type hk struct {
 	key  string
 	sort Sort
+	// for keys of a struct type that is embedded in the type named in a footprint: the
+	// embedding (struct key, field) through which the object is reached ("" = direct field)
+	embOf [2]string
 }
 
 type fpItem struct {
@@ -453,6 +456,7 @@ type fpItem struct {
 	bases []T      // restricted to these outer indexes (nil = whole array)
 	fresh bool     // "new T": only freshly allocated objects
 	all   bool     // "*"
+	except bool    // "!T": exception to "*"
 }
 
 func (f *Frame) applyContract(instr ssa.Instruction, ct *Contract, callee *ssa.Function, sig *types.Signature, name string, args []*V, st *State) []*V {
@@ -560,6 +564,15 @@ func (f *Frame) parseFootprint(ct *Contract, ctx *SpecCtx, pre *State) []fpItem 
 			items = append(items, fpItem{all: true})
 			continue
 		}
+		if strings.HasPrefix(m, "!") {
+			// exception to "*": objects of this type that existed before keep their contents
+			keys := u.keysForTypeSpec(strings.TrimSpace(m[1:]), ctx.pkg)
+			if len(keys) == 0 {
+				panic(unsupported("modifies: cannot resolve " + m))
+			}
+			items = append(items, fpItem{keys: keys, except: true})
+			continue
+		}
 		fresh := false
 		if strings.HasPrefix(m, "new ") {
 			fresh = true
@@ -657,9 +670,9 @@ func splitTop(s string) []string {
 
 func (u *Unit) mapHKs(t types.Type) []hk {
 	mk := u.mapKeysOf(t)
-	keys := []hk{{mk.dom, arrSort(SInt, arrSort(mk.ks, SBool))}, {mk.card, arrSort(SInt, SInt)}}
+	keys := []hk{{key: mk.dom, sort: arrSort(SInt, arrSort(mk.ks, SBool))}, {key: mk.card, sort: arrSort(SInt, SInt)}}
 	for _, l := range flatten(mk.vt) {
-		keys = append(keys, hk{mk.val + l.Path, arrSort(SInt, arrSort(mk.ks, l.Sort))})
+		keys = append(keys, hk{key: mk.val + l.Path, sort: arrSort(SInt, arrSort(mk.ks, l.Sort))})
 	}
 	return keys
 }
@@ -667,7 +680,7 @@ func (u *Unit) mapHKs(t types.Type) []hk {
 func (u *Unit) elemHKs(et types.Type) []hk {
 	var keys []hk
 	for _, l := range flatten(et) {
-		keys = append(keys, hk{"E:" + typeKey(et) + l.Path, arrSort(SInt, arrSort(SInt, l.Sort))})
+		keys = append(keys, hk{key: "E:" + typeKey(et) + l.Path, sort: arrSort(SInt, arrSort(SInt, l.Sort))})
 	}
 	return keys
 }
@@ -731,7 +744,7 @@ func (u *Unit) keysForTypeSpecPlain(spec string, pkg *types.Package) []hk {
 		}
 		var keys []hk
 		for _, l := range flatten(t) {
-			keys = append(keys, hk{"C:" + typeKey(t) + l.Path, arrSort(SInt, l.Sort)})
+			keys = append(keys, hk{key: "C:" + typeKey(t) + l.Path, sort: arrSort(SInt, l.Sort)})
 		}
 		return keys
 	}
@@ -775,17 +788,31 @@ func (u *Unit) fieldKeys(t types.Type, fld *types.Var) []hk {
 	if !isTime(ft) {
 		switch x := ft.Underlying().(type) {
 		case *types.Struct:
-			return u.structKeys(ft)
+			ks := u.structKeys(ft)
+			for i := range ks {
+				if ks[i].embOf[0] == "" {
+					ks[i].embOf = [2]string{structKey(t), fld.Name()}
+				}
+			}
+			return ks
 		case *types.Array:
 			es, _ := scalarSort(x.Elem())
-			return []hk{{"E:" + typeKey(x.Elem()), arrSort(SInt, arrSort(SInt, es))}}
+			return []hk{{key: "E:" + typeKey(x.Elem()), sort: arrSort(SInt, arrSort(SInt, es)), embOf: [2]string{structKey(t), fld.Name()}}}
 		}
 	}
 	var keys []hk
 	for _, l := range flatten(ft) {
-		keys = append(keys, hk{"F:" + structKey(t) + "." + fld.Name() + l.Path, arrSort(SInt, l.Sort)})
+		keys = append(keys, hk{key: "F:" + structKey(t) + "." + fld.Name() + l.Path, sort: arrSort(SInt, l.Sort)})
 	}
 	return keys
+}
+
+// kindCond restricts r!q to the objects a (possibly embedded) key belongs to.
+func (u *Unit) kindCond(k hk) string {
+	if k.embOf[0] == "" {
+		return "true"
+	}
+	return fmt.Sprintf("(= (embkind r!q) %d)", u.embTag(k.embOf[0], k.embOf[1]))
 }
 
 func (f *Frame) havocFootprint(ct *Contract, ctx *SpecCtx, pre, st *State) {
@@ -801,9 +828,14 @@ func (f *Frame) havocFootprint(ct *Contract, ctx *SpecCtx, pre, st *State) {
 	byKey := map[string][]fpItem{}
 	sorts := map[string]Sort{}
 	all := false
+	var excepted []hk
 	for _, it := range items {
 		if it.all {
 			all = true
+		}
+		if it.except {
+			excepted = append(excepted, it.keys...)
+			continue
 		}
 		for _, k := range it.keys {
 			byKey[k.key] = append(byKey[k.key], it)
@@ -811,9 +843,22 @@ func (f *Frame) havocFootprint(ct *Contract, ctx *SpecCtx, pre, st *State) {
 		}
 	}
 	if all {
+		olds := map[string]T{}
+		for _, k := range excepted {
+			olds[k.key] = u.heapGet(pre, k.key, k.sort)
+		}
 		u.havocAll(st)
+		done := map[string]T{}
+		for _, k := range excepted {
+			nh, ok := done[k.key]
+			if !ok {
+				nh = u.heapHavoc(st, k.key, k.sort)
+				done[k.key] = nh
+			}
+			u.assume(st, T{fmt.Sprintf("(forall ((r!q Int)) (! (=> (and (<= (root r!q) %s) %s) (= (select %s r!q) (select %s r!q))) :pattern ((select %s r!q))))", pre.alloc.S, u.kindCond(k), nh.S, olds[k.key].S, nh.S), SBool})
+		}
 		if u.writeLog != nil {
-			*u.writeLog = append(*u.writeLog, writeRec{key: "*"})
+			*u.writeLog = append(*u.writeLog, writeRec{key: "*", except: excepted})
 		}
 		return
 	}
